@@ -285,6 +285,17 @@ def accessors(rows, cols):
     return acc
 
 
+TEXT_ACCESSORS = [('dump',), ('str',), ('pretty',), ('get',)]
+
+
+def read_all(s):
+    str(s)
+    s.pretty()
+    s.dump()
+    s.get()
+    s.get_region(1, 1, s.rows, s.cols)
+
+
 def check_accessors(s, ref, accs):
     for a in accs:
         n = a[0]
@@ -339,6 +350,7 @@ def step(rows, cols, st, op, sharing=()):
     s = make_impl(rows, cols, st, sharing)
     ref = Ref(rows, cols, st)
     try:
+        read_all(s)      # a read earlier in the history must not change what a later read reports
         getattr(s, op[0])(*op[1:])
     except Exception as e:
         return None, ('raised', 'operation %r raised %r' % (op, e)), False, ()
@@ -350,6 +362,9 @@ def step(rows, cols, st, op, sharing=()):
         what = 'grid' if got[0] != want[0] else 'cursor' if got[1:3] != want[1:3] else \
             'saved-cursor' if got[3:5] != want[3:5] else 'region'
         return None, (what, 'after %r on %r: implementation %r, reference %r' % (op, st, got, want)), True, ()
+    r = check_accessors(s, ref, TEXT_ACCESSORS)
+    if r:
+        return None, ('stale-%s' % r[0][0], 'read everything, then %r on %r: %r %s' % (op, st, r[0], r[1])), True, ()
     return got, None, got != st, row_sharing(s)
 
 
@@ -453,9 +468,11 @@ def replay(spec):
     s = screen.screen(rows, cols)
     ref = Ref(rows, cols)
     out = {'violation': None, 'trace': []}
-    for op in spec['history']:
-        op = tuple(op)
+    hist = [tuple(op) for op in spec['history']]
+    for i, op in enumerate(hist):
         try:
+            if i == len(hist) - 1:
+                read_all(s)
             getattr(s, op[0])(*op[1:])
         except Exception as e:
             out['violation'] = {'key': '%s:raised' % op[0], 'msg': repr(e)}
@@ -470,6 +487,10 @@ def replay(spec):
             what = 'grid' if got[0] != want[0] else 'cursor' if got[1:3] != want[1:3] else \
                 'saved-cursor' if got[3:5] != want[3:5] else 'region'
             out['violation'] = {'key': '%s:%s' % (op[0], what), 'msg': 'impl %r ref %r' % (got, want)}
+            return out
+        r = check_accessors(s, ref, TEXT_ACCESSORS) if i == len(hist) - 1 else None
+        if r:
+            out['violation'] = {'key': '%s:stale-%s' % (op[0], r[0][0]), 'msg': '%r %s' % (r[0], r[1])}
             return out
     if 'accessor' in spec:
         r = check_accessors(s, ref, [tuple(spec['accessor'])])
